@@ -277,7 +277,7 @@ def run(ctx):
         obs = exercise(state, evt, role, artim_pre, var)
         ctx.case((state, evt, role, artim_pre, var), True, labels=['generated-content', 'evt=%d' % evt])
         judge(state, evt, role, artim_pre, var, obs)
-    hyp_search(ctx, strat, fn, 3000 if ctx.thorough else 400, name='C04-content')
+    hyp_search(ctx, strat, fn, 20000 if ctx.thorough else 400, name='C04-content')
 
 
 def replay(case):
